@@ -36,6 +36,9 @@ pub fn binary<F: RawFloat, const FORMAT: u128>(num: &Number, lossy: bool) -> Ext
     };
 
     // Normalize our mantissa for simpler results.
+    if num.mantissa == 0 {
+        return fp_zero;
+    }
     let ctlz = num.mantissa.leading_zeros();
     let mantissa = num.mantissa << ctlz;
 
